@@ -165,8 +165,6 @@ package source
 // ---------------------------------------------------------------------------
 // C18: the incremental read of the main dataset starts at the stored main position, and the position handed on with the
 // batch (and stored once the sink accepted it) is exactly the one that read returned
-//@ assumed (source.DatasetContinuation).AsIncrToken
-//@   pure
 //@ unit (*MultiSource).incrementalRead
 //@   prop C18
 //@   ghost sinceG int = 0
@@ -198,8 +196,6 @@ package source
 //@     assert [C18:dependency-token-read-from-the-active-dependencys-own-token] c.activeDS != "" && $arg0 == c.DependencyTokens[c.activeDS]
 
 // the watermark of every dependency is taken from that dependency's own dataset and stored under that dataset's name
-//@ assumed (*MultiSource).getDatasetFor
-//@   pure
 //@ assumed (*server.Dataset).GetChangesWatermark
 //@   pure
 //@ unit (*MultiSource).grabWatermarks
